@@ -5,6 +5,7 @@ package tree
 import (
 	"encoding/binary"
 	"fmt"
+	"os"
 	"time"
 
 	"github.com/bbva/qed/balloon"
@@ -221,6 +222,7 @@ func (l *Log) Apply(digests [][]byte, bulk bool) ([]*balloon.Snapshot, error) {
 // Reopen closes the balloon (and for rocksdb the store) and opens it again on the same data.
 func (l *Log) Reopen() error {
 	l.B.Close()
+	l.B = nil
 	if l.Backend == Rocks {
 		if err := l.Store.Close(); err != nil {
 			return err
@@ -249,3 +251,13 @@ func (l *Log) Close() {
 }
 
 func (l *Log) N() uint64 { return l.RH.Len() }
+
+// workersN is the number of logs built concurrently (each holds a 1.15 GB cache whose first
+// touch is slow in this VM; see lib.Ballast).
+func workersN() int {
+	n := 2
+	if v := os.Getenv("QV_TREE_WORKERS"); v != "" {
+		fmt.Sscan(v, &n)
+	}
+	return n
+}
